@@ -55,6 +55,20 @@ def gen(rnd, tier):
                     evs = pre + [e] + tail
                     if all(D.valid_event(evs[i]) and D.clean(evs[i], [b for x in evs[i + 1:] for b in D.encode(x)]) for i in range(len(evs))):
                         cases.append(D.stream_case(evs, tag="boundary:%s" % e[0]))
+    # every documented key (with and without alt) cut just before its last byte, and before its last two, by the first boundary
+    for i in range(len(D.ref())):
+        for alt in ([False, True] if not D.ref()[i][2] else [False]):
+            e = ("key", i, alt)
+            eb = D.encode(e)
+            for back in (1, 2):
+                if len(eb) <= back:
+                    continue
+                if tier == "quick" and back == 2 and i % 3:
+                    continue
+                pre = pad(rnd, 256 - (len(eb) - back), 0)
+                evs = pre + [e, ("ctl", 13, False), ("runes", [122])]
+                if all(D.valid_event(evs[j]) and D.clean(evs[j], [b for x in evs[j + 1:] for b in D.encode(x)]) for j in range(len(evs))):
+                    cases.append(D.stream_case(evs, tag="key-last-byte"))
     # far beyond the first boundaries: one unbroken run of text filling 16 (32, 64) reads - everything of it is still
     # pending when the event arrives that straddles the end of the last full read
     far_kinds = [("runes", [0x1F600]), ("key", 0, False), ("sgr", 35, 100, 20, False), ("x10", 32, 10, 10), ("paste", [104, 105]), ("altrune", 0xE9),
